@@ -315,7 +315,7 @@ fn main() {
             assumptions: &[
                 "digits()/from_digits()/to_bits()/from_bits() are the trusted observation channel (their own contract is checked under C13)",
                 "reference integer Z (vlib::refint) is correct: self-tested against i128/u128 and python-generated vectors on every run",
-                "37 (digit, N) configurations sample 'every N >= 1'",
+                "43 (digit, N) configurations sample 'every N >= 1'",
             ],
         },
         jobs,
